@@ -1138,6 +1138,30 @@ def rule_r17(ctx, sf: SqlFacts) -> RuleResult:
     return rr
 
 
+def rule_r18(ctx) -> RuleResult:
+    """get_page() replaces `_` by a blank in the requested title before it compares the title with the namespace names and
+    aliases (R15).  A name or alias that itself contains an underscore can therefore never match: the lookup prepends the
+    local name a second time and misses the page (seed C10-9A: `"Image_talk"` in data/en/namespaces.json, "as MediaWiki spells
+    it").  Decided from the shipped data files."""
+    from ..core.data import DataFiles
+
+    rr = RuleResult("C10.R18", "no shipped namespace name or alias contains an underscore", min_instances=50)
+    data = DataFiles(ctx.index)
+    for lang, d in sorted(data.namespaces.items()):
+        bad = []
+        for key, e in d.items():
+            for n in [key, e.get("name", "")] + list(e.get("aliases", []) or []):
+                if isinstance(n, str) and "_" in n:
+                    bad.append(n)
+        if bad:
+            rr.bad(Finding("C10.R18", "src/wikitextprocessor/data/{}/namespaces.json".format(lang), "data", "alias {!r}".format(bad[0]),
+                           "get_page() turns `_` into a blank before comparing with this list, so `{}` (and {} more) can never match: a page of "
+                           "that namespace looked up through the alias -- in either spelling -- is not found".format(bad[0], len(bad) - 1), 0))
+        else:
+            rr.ok("data/" + lang, "names and aliases free of `_`")
+    return rr
+
+
 def _p():
     from . import _expand
 
@@ -1147,4 +1171,4 @@ def _p():
 def run(ctx) -> list:
     sf = SqlFacts(ctx.index)
     return [rule_r1(ctx, sf), rule_r2(ctx, sf), rule_r3(ctx, sf), rule_r4(ctx, sf), rule_r5(ctx, sf), rule_r6(ctx, sf),
-            rule_r7(ctx, sf), rule_r8(ctx), rule_r9(ctx), rule_r10(ctx), rule_r11(ctx, sf), rule_r12(ctx, sf), rule_r13(ctx), rule_r14(ctx), rule_r15(ctx), rule_r16(ctx, sf), rule_r17(ctx, sf)]
+            rule_r7(ctx, sf), rule_r8(ctx), rule_r9(ctx), rule_r10(ctx), rule_r11(ctx, sf), rule_r12(ctx, sf), rule_r13(ctx), rule_r14(ctx), rule_r15(ctx), rule_r16(ctx, sf), rule_r17(ctx, sf), rule_r18(ctx)]
